@@ -120,16 +120,20 @@ impl Indexable for Vec<Value> {
     }
 
     fn get(&self, index: i64) -> Result<Value, Error> {
-        let index: Result<usize, std::num::TryFromIntError> = if index >= 0 {
-            index.try_into()
+        let len = self.len();
+        // a negative index counts from the end; anything outside -len..len is an error, never a panic
+        let i: Option<usize> = if index >= 0 {
+            index.try_into().ok()
         } else {
-            (-index).try_into().map(|i: usize| self.len() - i)
+            match index.unsigned_abs().try_into() {
+                Ok(back) => len.checked_sub(back),
+                Err(_) => None,
+            }
         };
-        let i: usize = index.context("failed to cast index from i64")?;
-        if i >= self.len() {
-            bail!("index out of bounds: {}", i)
+        match i {
+            Some(i) if i < len => Ok(self[i].clone()),
+            _ => bail!("index out of bounds: {}", index),
         }
-        Ok(self[i].clone())
     }
 }
 
